@@ -47,7 +47,7 @@ def decode(template):
     return None
 
 
-def format_shape(t):
+def format_shape(t, _depth=0):
     """For a term containing `fmt::format(Arguments::new(template, &[Argument::new_*(&v)...]))` return
     (pieces, [(kind, value_term)]) or None."""
     fm = T.find(t, lambda x: T.is_call(x, r"^std::fmt::format$|^alloc::fmt::format$"))
@@ -73,7 +73,53 @@ def format_shape(t):
         if c is None:
             return None
         args.append((c[1].split("new_")[-1], c[2][0]))
-    return pieces, args
+    return _splice_nested(pieces, args, _depth)
+
+
+_STR_VIEW = r"(String::as_str|String as std::ops::Deref>::deref|String::as_bytes|<T as std::string::ToString>::to_string|std::string::ToString::to_string)$"
+
+
+def _splice_nested(pieces, args, depth):
+    """`format!("{} {:02}", format!("{:04}-{:02}", y, m), h)` is the template `{:04}-{:02} {:02}` of (y, m, h): a plain `{}` whose
+    argument is itself a formatted String is replaced by that String's pieces (arguments renumbered in order of occurrence)."""
+    if depth > 4:
+        return pieces, args
+    nested = {}
+    for p in pieces:
+        if p[0] != "arg" or p[1] >= len(args):
+            continue
+        kind, val = args[p[1]]
+        o = p[2]
+        if kind != "display" or o["zero"] or o["width"] is not None or o["precision"] is not None:
+            continue
+        inner = T.peel(val, extra_rx=_STR_VIEW)
+        if T.is_call(inner, r"^std::fmt::format$|^alloc::fmt::format$"):
+            sub = format_shape(inner, depth + 1)
+            if sub is not None:
+                nested[p[1]] = sub
+    if not nested:
+        return pieces, args
+    out_p, out_a = [], []
+    for p in pieces:
+        if p[0] != "arg":
+            out_p.append(p)
+        elif p[1] in nested:
+            sp, sa = nested[p[1]]
+            base = len(out_a)
+            for q in sp:
+                out_p.append(q if q[0] != "arg" else ("arg", base + q[1], q[2]))
+            out_a.extend(sa)
+        else:
+            out_p.append(("arg", len(out_a), p[2]))
+            out_a.append(args[p[1]] if p[1] < len(args) else ("display", ("unknown", "arg")))
+    # adjacent literals merge
+    merged = []
+    for q in out_p:
+        if q[0] == "lit" and merged and merged[-1][0] == "lit":
+            merged[-1] = ("lit", merged[-1][1] + q[1])
+        else:
+            merged.append(q)
+    return merged, out_a
 
 
 def builder_shape(path, val):
